@@ -189,9 +189,9 @@ theorem K_setToSend_single {p : Bool} {g0 : G2} {s : Sess} {m : OutMsg} (h : K p
 /-! ### sending -/
 
 /-- prepMessageForSend: the invariant survives and the numbered message, if any, is covered -/
-theorem K_prep (p : Bool) (g0 : G2) (s : Sess) (m : OutMsg) (h : K p g0 s) :
-    K p g0 (prep s m).2 ∧ (∀ m', (prep s m).1 = some m' → p = true → covered (g2Of p g0 (prep s m).2) m' = true) := by
-  unfold prep
+theorem K_prepCore (p : Bool) (g0 : G2) (s : Sess) (m : OutMsg) (h : K p g0 s) :
+    K p g0 (prepCore s m).2 ∧ (∀ m', (prepCore s m).1 = some m' → p = true → covered (g2Of p g0 (prepCore s m).2) m' = true) := by
+  unfold prepCore
   simp only []
   split
   · split
@@ -215,6 +215,10 @@ theorem K_prep (p : Bool) (g0 : G2) (s : Sess) (m : OutMsg) (h : K p g0 s) :
       subst hm'
       exact b hp _ rfl rfl rfl
 
+theorem K_prep (p : Bool) (g0 : G2) (s : Sess) (m : OutMsg) (h : K p g0 s) :
+    K p g0 (prep s m).2 ∧ (∀ m', (prep s m).1 = some m' → p = true → covered (g2Of p g0 (prep s m).2) m' = true) :=
+  K_prepCore p g0 s (stamp s m) h
+
 theorem pres_queueForSend (p : Bool) (g0 : G2) (s : Sess) (m : OutMsg) : Pres p g0 s (queueForSend s m) := by
   intro h
   unfold queueForSend
@@ -229,7 +233,7 @@ theorem pres_sendInReplyTo (p : Bool) (g0 : G2) (s : Sess) (m : OutMsg) : Pres p
   intro h
   unfold sendInReplyTo
   split
-  · exact pres_queueForSend p g0 s m h
+  · exact pres_queueForSend p g0 s _ h
   · have hp := K_prep p g0 s m h
     generalize prep s m = r at hp
     obtain ⟨o, s'⟩ := r
@@ -330,6 +334,8 @@ theorem Fields.get_set_other (f : Fields) (t t' : Nat) (v : String) (h : t' ≠ 
 theorem firstTime_gapFill (b e : Int) : firstTime (gapFill b e) = false := by
   simp [firstTime, gapFill, Fields.get?]
 
+theorem firstTime_gapFillR (s : Sess) (b e : Int) : firstTime (gapFillR s b e) = false := firstTime_gapFill b e
+
 theorem firstTime_resent (m : OutMsg) : firstTime (resent m) = false := by
   simp only [firstTime, resent]
   rw [Fields.get_set_other _ 122 43 _ (by decide), Fields.get_set_same]
@@ -368,6 +374,8 @@ theorem peel_storeReset (h : Pres p g0 s x) : Pres p g0 s x.storeReset := h.tran
 theorem peel_sendQueued (h : Pres p g0 s x) : Pres p g0 s (sendQueued x) := h.trans (pres_sendQueued p g0 x)
 theorem peel_sendLogonInReplyTo (r : Bool) (h : Pres p g0 s x) : Pres p g0 s (sendLogonInReplyTo x r) := h.trans (pres_sendLogonInReplyTo p g0 x r)
 theorem peel_sendResendRequest (b e : Int) (h : Pres p g0 s x) : Pres p g0 s (sendResendRequest x b e).1 := h.trans (pres_sendResendRequest p g0 x b e)
+theorem peel_sendLogonRe (r : Bool) (m : InMsg) (h : Pres p g0 s x) : Pres p g0 s (sendLogonRe x r m) := h.trans (pres_dropAndSend p g0 x _)
+theorem peel_setReplyLast (v : Option Int) (hp : Pres p g0 s x) : Pres p g0 s (x.setReplyLast v) := hp.trans ((Ext.of_eq (s := x) rfl rfl rfl rfl).pres p g0)
 theorem peel_emit (o : Obs) (hn : neutral o = true) (h : Pres p g0 s x) : Pres p g0 s (x.emit o) := h.trans ((Ext.emit x o hn).pres p g0)
 theorem peel_setToSend_nil (h : Pres p g0 s x) : Pres p g0 s (x.setToSend []) := fun hk => K_setToSend_nil (h hk)
 theorem peel_setTarget (n : Int) (h : Pres p g0 s x) : Pres p g0 s (x.setTarget n) := h.trans ((Ext.of_eq (s := x) rfl rfl rfl rfl).pres p g0)
@@ -399,6 +407,8 @@ macro_rules | `(tactic| c2_step) => `(tactic| apply peel_storeReset)
 macro_rules | `(tactic| c2_step) => `(tactic| apply peel_sendQueued)
 macro_rules | `(tactic| c2_step) => `(tactic| apply peel_sendLogonInReplyTo)
 macro_rules | `(tactic| c2_step) => `(tactic| apply peel_sendResendRequest)
+macro_rules | `(tactic| c2_step) => `(tactic| apply peel_sendLogonRe)
+macro_rules | `(tactic| c2_step) => `(tactic| apply peel_setReplyLast)
 macro_rules | `(tactic| c2_step) => `(tactic| apply peel_emit _ (by simp [neutral]))
 macro_rules | `(tactic| c2_step) => `(tactic| apply peel_setToSend_nil)
 macro_rules | `(tactic| c2_step) => `(tactic| apply peel_setTarget)
@@ -500,7 +510,7 @@ theorem pres_resendLoop (p : Bool) (g0 : G2) (s : Sess) (a b : Int) (l : List (I
       · exact ih s a (n + 1)
       · try dsimp only
         split
-        · exact ((pres_enqueueAndSend p g0 s _ (firstTime_gapFill _ _)).trans
+        · exact ((pres_enqueueAndSend p g0 s _ (firstTime_gapFillR _ _ _)).trans
             (pres_enqueueAndSend p g0 _ _ (firstTime_resent m))).trans (ih _ _ _)
         · exact (pres_enqueueAndSend p g0 s _ (firstTime_resent m)).trans (ih _ _ _)
 
@@ -509,13 +519,13 @@ theorem pres_resendMessages (p : Bool) (g0 : G2) (s : Sess) (b e : Int) : Pres p
   split
   · exact Pres.refl p g0 s
   · split
-    · exact pres_enqueueAndSend p g0 s _ (firstTime_gapFill _ _)
+    · exact pres_enqueueAndSend p g0 s _ (firstTime_gapFillR _ _ _)
     · have hl := pres_resendLoop p g0 s b b (s.store.range b e)
       generalize resendLoop s b b (s.store.range b e) = r at hl
       obtain ⟨s', x, y⟩ := r
       try dsimp only at hl ⊢
       split
-      · exact hl.trans (pres_enqueueAndSend p g0 s' _ (firstTime_gapFill _ _))
+      · exact hl.trans (pres_enqueueAndSend p g0 s' _ (firstTime_gapFillR _ _ _))
       · exact hl
 
 theorem peel_resendMessages {p : Bool} {g0 : G2} {s x : Sess} (b e : Int) (h : Pres p g0 s x) :
@@ -577,7 +587,7 @@ theorem pres_inSessionFixMsgIn (p : Bool) (g0 : G2) (s : Sess) (m : InMsg) : Pre
     generalize handleLogon s m = r at hl
     obtain ⟨s', o⟩ := r
     cases o with
-    | some e => exact hl.trans (pres_initiateLogout p g0 s')
+    | some e => exact hl.trans (pres_sendInReplyTo p g0 s' ((mkOut "5" []).inReplyTo m))
     | none => exact hl
   · split
     · exact pres_handleLogout p g0 s m
@@ -636,10 +646,10 @@ theorem K_resendFixMsgIn (p : Bool) (g0 : G2) (s : Sess) (stash : List (Int × I
     | exact K_sRR_eq (by assumption) h1
     | exact K_drain_eq (by assumption) h1
 
-theorem K_shutdownWithReason (p : Bool) (g0 : G2) (s : Sess) (incr : Bool) (h : K p g0 s) :
-    K p g0 (shutdownWithReason s incr).1 := by
+theorem K_shutdownWithReason (p : Bool) (g0 : G2) (s : Sess) (m : InMsg) (incr : Bool) (h : K p g0 s) :
+    K p g0 (shutdownWithReason s m incr).1 := by
   unfold shutdownWithReason
-  have : Pres p g0 s (if incr = true then incrTarget (dropAndSend s (mkOut "5" [])) else dropAndSend s (mkOut "5" [])) := by c2_peel
+  have : Pres p g0 s (if incr = true then incrTarget (dropAndSend s ((mkOut "5" []).inReplyTo m)) else dropAndSend s ((mkOut "5" []).inReplyTo m)) := by c2_peel
   exact this h
 
 theorem K_handleLogon_eq {p : Bool} {g0 : G2} {s : Sess} {m : InMsg} {r : Sess × Option LogonErr}
@@ -656,7 +666,7 @@ theorem K_logonFixMsgIn (p : Bool) (g0 : G2) (s : Sess) (m : InMsg) (h : K p g0 
       have hh := K_handleLogon_eq (by assumption : handleLogon s m = _) h
       first
         | exact hh
-        | exact K_shutdownWithReason p g0 _ _ hh
+        | exact K_shutdownWithReason p g0 _ _ _ hh
         | exact K_sRR_eq (by assumption) hh)
 
 theorem K_fixMsgInCore (p : Bool) (g0 : G2) (s : Sess) (m : InMsg) (h : K p g0 s) : K p g0 (fixMsgInCore s m).1 := by
@@ -772,6 +782,16 @@ theorem K_stopNext (p : Bool) (g0 : G2) (s : Sess) (h : K p g0 s) : K p g0 (stop
   all_goals (try dsimp only)
   all_goals first | exact h | exact (by c2_peel : Pres p g0 s _) h
 
+theorem peel_setLastChecked {p : Bool} {g0 : G2} {s x : Sess} (n : Int) (hp : Pres p g0 s x) : Pres p g0 s (x.setLastChecked n) :=
+  hp.trans ((Ext.of_eq (s := x) rfl rfl rfl rfl).pres p g0)
+macro_rules | `(tactic| c2_step) => `(tactic| apply peel_setLastChecked)
+
+theorem pres_checkResetTime (p : Bool) (g0 : G2) (s : Sess) (now : Int) : Pres p g0 s (checkResetTime s now) := by
+  unfold checkResetTime
+  repeat' split
+  all_goals (try dsimp only)
+  all_goals c2_peel
+
 theorem K_stepCore (p : Bool) (g0 : G2) (s : Sess) (e : Ev) (h : K p g0 s) : K p g0 (stepCore s e).1 := by
   obtain ⟨hS, hD, hI, hC⟩ := K_mutual p g0 (fuelOf s)
   unfold stepCore
@@ -817,5 +837,6 @@ theorem K_stepCore (p : Bool) (g0 : G2) (s : Sess) (e : Ev) (h : K p g0 s) : K p
     · exact pres_sendQueued p g0 _ h1
     · exact K_setToSend_nil h1
   | sessionTime r sm => exact hC s r sm h
+  | resetTime now => exact pres_checkResetTime p g0 s now h
 
 end Qfx.Sess.C02
